@@ -7,20 +7,25 @@ from ..core import Verdict
 from ..refs import units_ref as R
 
 ID = "C15"
-RULE = ("Program ASTs: node definitions, modifications of base nodes, '!constant' properties, groups and blocks = list of "
-        "clauses (@case with literal true/false or an expression over an earlier node, optional @else) holding items "
-        "recursively (depth <= 4); every block closed by @end or by indentation (indentation only where the next sibling "
-        "is not itself a block, as the docs require); per-level indentation width 1-4; nodes before, inside, between "
-        "and after blocks; the same name defined in several clauses; blocks with compact names ('ga.@case', contents below "
-        "ga) next to plain ones, where a following block of another path is a new block; blank and comment lines "
-        "sprinkled between the lines; conditions with == != < >= <=; a node followed by one whose value references it, "
-        "inside clauses (an unselected clause must not even resolve the reference); imports from a second file inside "
-        "clauses; chains of 3-4 directly nested blocks under every truth assignment. Oracle: reference interpreter - selected clause = "
-        "first true, else @else; an item takes effect iff every enclosing block selects its clause; case indentation "
-        "does not enter names. Compared with env.data() (keys in first-effect order, values) and the constant flags. "
-        "Programs with a stray @else/@end where no block is open must raise. Non-trivial: an all-false block closed by "
-        "indentation and followed by a node, or nesting inside an unselected clause, or >= 3 clauses. "
-        "Distinct = distinct rendered text.")
+RULE = (
+    "Program ASTs: node definitions, modifications of base nodes, '!constant' properties, groups and blocks = "
+    'list of clauses (@case with literal true/false or an expression over an earlier node, optional @else) '
+    'holding items recursively (depth <= 4); every block closed by @end or by indentation (indentation only where '
+    'the next sibling is not itself a block, as the docs require); per-level indentation width 1-4; nodes before, '
+    'inside, between and after blocks; the same name defined in several clauses; blocks with compact names '
+    "('ga.@case', contents below ga) next to plain ones, where a following block of another path is a new block; "
+    'blank and comment lines sprinkled between the lines; conditions with == != < >= <=; a node followed by one '
+    'whose value references it, inside clauses (an unselected clause must not even resolve the reference); '
+    'imports from a second file inside clauses; chains of 3-4 directly nested blocks under every truth '
+    'assignment. Oracle: reference interpreter - selected clause = first true, else @else; an item takes effect '
+    'iff every enclosing block selects its clause; case indentation does not enter names. Compared with '
+    'env.data() (keys in first-effect order, values) and the constant flags. Programs with a stray @else/@end '
+    'where no block is open must raise. Non-trivial: an all-false block closed by indentation and followed by a '
+    'node, or nesting inside an unselected clause, or >= 3 clauses. Later rounds: explicit sibling pairs of '
+    'compact blocks; @case after @else; parser / environment histories (after a failed parse, on an environment '
+    'left with an open block); a foreign @end at the clause indent; property lines directly inside clauses; '
+    'ragged clause bodies. Distinct = distinct rendered text.'
+)
 ASSUMPTIONS = [
     "conditions inside clauses only refer to nodes defined at the root before the first block",
     "the imported file holds two int nodes; importing it twice below one parent re-assigns the same values",
